@@ -1,11 +1,12 @@
 import Model.Base.Proto
 import Model.Storage.Query
 import Model.Storage.Fmt
+import Model.Storage.Lex
 import Model.Analysis.Quote
 import Model.Spec.Storage
 
 namespace Driver.C19
-open Proto Storage.Query Storage.Fmt
+open Proto Storage.Query Storage.Fmt Storage.Lex
 
 /- Protocol (see harness/c19/main.go):
    case <id> kind=hist ups=<day~user~name.content+…;…> qs=<hexlist> ls=<q:limit,…>
@@ -41,6 +42,25 @@ def parseLs (s : String) : List (Bytes × Int) :=
     match l.splitOn ":" with
     | [q, n] => some (hexD q, n.toInt?.getD 0)
     | _ => none
+
+def hexNat (s : String) : Option Nat :=
+  s.toList.foldlM (fun n c => (Bytes.hexVal c).map (n * 16 + ·)) 0
+
+/-- `uni=<hex code point>:<flags>,…` (1 = IsSpace, 2 = IsUpper, 4 = IsLower): the toolchain's
+classification of every non-ASCII rune of the case -/
+def mkUC (s : String) : _root_.Fmt.UC :=
+  let tbl : List (Nat × Nat) := if s == "-" || s == "" then [] else
+    (s.splitOn ",").filterMap fun e =>
+      match e.splitOn ":" with
+      | [r, f] => match hexNat r, f.toNat? with
+        | some rv, some fv => some (rv, fv)
+        | _, _ => none
+      | _ => none
+  let flag (bit : Nat) (r : Nat) : Bool :=
+    match tbl.find? (·.1 == r) with
+    | some (_, f) => (f >>> bit) % 2 == 1
+    | none => false
+  { isSpace := flag 0, isUpper := flag 1, isLower := flag 2 }
 
 def sortStrings (l : List String) : List String := (l.toArray.qsort (· < ·)).toList
 
@@ -108,6 +128,8 @@ def handleHist (l : Line) : IO Unit := do
   let qs := (l.hexList? "qs").getD []
   let ls := parseLs (l.getD "ls" "-")
   let id := l.id
+  let uc := mkUC (l.getD "uni" "-")
+  let lx := Lex.unicode uc
   -- uploads: model state, and the specification's view of what is stored
   let mut db : DB := {}
   let mut stored : List (Bytes × List Spec.Storage.Line) := []
@@ -115,13 +137,13 @@ def handleHist (l : Line) : IO Unit := do
   let mut i := 0
   for u in ups do
     let before := db.labels.length
-    let (db', uid, ok) := processUpload db u.day u.user u.files
+    let (db', uid, ok) := processUploadL lx db u.day u.user u.files
     db := db'
     if ok then
       let parts := (List.range u.files.length).map fun k => uid ++ [47] ++ natToDec k
       IO.println s!"obs {id} up{i} ok=1 uid={uid.toHex} parts={showHexList parts}"
       let lines := (u.files.zipIdx).flatMap fun (f, k) =>
-        Spec.Storage.fileLines (specServerLabels uid k u.user f.name) f.content
+        Spec.Storage.fileLines uc (specServerLabels uid k u.user f.name) f.content
       stored := stored ++ [(uid, lines)]
       if db.labels.length - before > 247 then flushed := true
     else
@@ -136,18 +158,18 @@ def handleHist (l : Line) : IO Unit := do
     let tags := (if n7 then ["N7"] else []) ++ (if n8 then ["N8"] else []) ++ (if flushed then ["N9"] else [])
     if tags.isEmpty then "" else " kf=" ++ "+".intercalate tags
   let termsOf (q : Bytes) : Option (List Spec.Storage.Term) :=
-    match (splitWords q).mapM Spec.Storage.termOf with
+    match (splitWords q).mapM (Spec.Storage.termOf uc) with
     | some ts => if ts.any (·.refusable) then none else some ts
     | none => none
   -- queries
   let mut j := 0
   for q in qs do
-    let sqlS := match parseQuery q with
+    let sqlS := match parseQueryL lx q with
       | .ok sqls => "/".intercalate (sqls.map fun (s : Sql) => (Bytes.ofString s.text).toHex) ++ "@" ++
                     showHexList (sqls.flatMap Sql.args)
       | .error e => errTag e
-    let dbR := dbQuery db q
-    let clR := if q.isEmpty then .error .missingOp else clientQuery db q
+    let dbR := dbQueryL lx db q
+    let clR := if q.isEmpty then .error .missingOp else clientQueryL lx db q
     IO.println s!"obs {id} q{j} sql={sqlS} db={showResults recStr dbR} cl={showResults recStr clR}"
     if !q.isEmpty then
       let modelS := showResults (fun r => specRecOf (r.labels ++ r.nameL) r.content) clR
@@ -163,9 +185,9 @@ def handleHist (l : Line) : IO Unit := do
   -- listings
   j := 0
   for (q, limit) in ls do
-    let dbL := listUploads db q limit
+    let dbL := listUploadsL lx db q limit
     let climit : Int := if limit == 0 then 1000 else limit
-    let clL := listUploads db q climit
+    let clL := listUploadsL lx db q climit
     IO.println s!"obs {id} l{j} db={showListing dbL} cl={showListing clL}"
     let modelS := showListing clL
     match termsOf q with
